@@ -14,42 +14,55 @@
                                  storage before the setter refused (the constant changed)
      RegisterShadows   = TRUE  : a parameter / loop variable named K was bound in a register,
                                  so inside the body K evaluated to the new value
+     CheckWalksCallStack = TRUE: (a seeded change, never the pinned tree) the setter looks for the existing constant
+                                 along the CALL chain instead of the lexical chain: a constant bound inside a function
+                                 and captured by a closure that escaped is invisible to the check when the closure is
+                                 called from somewhere else, and a plain = or := through the closure rebinds it
+   The constant lives either at top level or inside a function whose closures escaped (home); in the second case every
+   attempt is made through one of those closures, called from the top level, from a function or from a loop.
    ConstantsStable: K evaluates to the value it was bound to until an explicit del(K).
    With both constants FALSE (code after the repairs) it holds; with either TRUE TLC finds the
    attempt.  The explored histories are replayed on the real interpreter (GEN) for every value
    kind, with registers on and off.                                                        *)
 EXTENDS Integers, Sequences, TLC, Json, GrolPrims
 
-CONSTANTS MaxOps, WriteBeforeCheck, RegisterShadows, EmitOn
+CONSTANTS MaxOps, WriteBeforeCheck, RegisterShadows, CheckWalksCallStack, EmitOn
 
 Kinds  == {"assign", "define", "incr", "predecr", "index-assign", "del-entry", "loop-var", "list-loop-var",
            "param", "nested-assign", "nested-define", "func-name", "equal-reassign",
            "loop-from-own-value",   \* for K = K:K+3 {..}: the first loop value equals the constant (an accepted equal re-binding), the next ones do not
-           "fresh-loop-constant"}   \* for FRESH = 3 {..}: the first iteration binds a new constant, later iterations must not change it
+           "fresh-loop-constant",   \* for FRESH = 3 {..}: the first iteration binds a new constant, later iterations must not change it
+           "fresh-param-constant"}  \* func(FRESHP) {++FRESHP ..}(3): the call binds a new constant, the body must not change it
 Scopes == {"top", "function", "loop"}
 
+ClosureKinds == {"assign", "define", "incr", "predecr", "index-assign", "del-entry", "nested-assign", "equal-reassign"}
+
 VARIABLES ver,      \* version of the value K evaluates to at top level
+          home,     \* "top": K is a global; "closure": K is bound inside a function and reached through escaped closures
           seenIn,   \* a body in which K evaluated to something else was run (shadowing)
           large,    \* K holds a large container (chosen at Init)
           hist
-vars == <<ver, seenIn, large, hist>>
+vars == <<ver, home, seenIn, large, hist>>
 
-Init == ver = 0 /\ seenIn = FALSE /\ large \in BOOLEAN /\ hist = <<>>
+Init == ver = 0 /\ home \in {"top", "closure"} /\ seenIn = FALSE /\ large \in BOOLEAN /\ hist = <<>>
 
 Attempt(k, sc) ==
   /\ Len(hist) < MaxOps
-  /\ ver' = IF k \in {"index-assign", "del-entry"} /\ large /\ WriteBeforeCheck THEN ver + 1 ELSE ver
-  /\ seenIn' = (seenIn \/ (k \in {"param", "loop-var", "loop-from-own-value", "fresh-loop-constant"} /\ RegisterShadows))
-  /\ UNCHANGED large
+  /\ home = "closure" => k \in ClosureKinds
+  /\ ver' = IF k \in {"index-assign", "del-entry"} /\ large /\ WriteBeforeCheck THEN ver + 1
+            ELSE IF home = "closure" /\ k \in {"assign", "define"} /\ CheckWalksCallStack THEN ver + 1
+            ELSE ver
+  /\ seenIn' = (seenIn \/ (k \in {"param", "loop-var", "loop-from-own-value", "fresh-loop-constant", "fresh-param-constant"} /\ RegisterShadows))
+  /\ UNCHANGED <<large, home>>
   /\ hist' = Append(hist, <<k, sc>>)
 
 \* the one legitimate way: delete explicitly, then bind again
 DelAndRebind ==
-  /\ Len(hist) < MaxOps
-  /\ ver' = 0 /\ seenIn' = FALSE /\ UNCHANGED large      \* version 0 again: "the value it was (re)bound to"
+  /\ Len(hist) < MaxOps /\ home = "top"
+  /\ ver' = 0 /\ seenIn' = FALSE /\ UNCHANGED <<large, home>>      \* version 0 again: "the value it was (re)bound to"
   /\ hist' = Append(hist, <<"del-rebind", "top">>)
 
-Emit == EmitOn => EmitLine(ToJson([h |-> hist']))
+Emit == EmitOn => EmitLine(ToJson([h |-> hist', home |-> home]))
 
 Next ==
   /\ \/ \E k \in Kinds, sc \in Scopes : Attempt(k, sc)
